@@ -1,11 +1,12 @@
 import Fabio.Model.C05Lang
+import Fabio.Model.C05Glue
 import Fabio.Lemmas.C05Text
 /-!
 C05 (round 4): every well-formed route command, written in the command language (`Model/C05Lang.lean`,
 `printDef`), is read back by `parseLine` as that very command — all three commands, all eight forms. Core Lean only.
 -/
 namespace Fabio.Lemmas.C05Lang
-open Fabio Fabio.Model.Route Fabio.Model.Parse Fabio.Model.C05Lang Fabio.Lemmas.C05Text
+open Fabio Fabio.Model.Route Fabio.Model.Parse Fabio.Model.C05Lang Fabio.Model.C05Glue Fabio.Lemmas.C05Text
 
 
 theorem head_del (s : Str) : head kDel ("route del".toList ++ s) = some s := by
@@ -785,6 +786,121 @@ theorem parse_scriptText (pf : ParseFloat) (cs : List (Str × RouteDef))
     obtain ⟨x, hx, rfl⟩ := List.mem_map.1 hl
     exact ⟨printDef_ne (h x hx).1, (printDef_facts (h x hx).1).2.2.1⟩
 
+/-! ### float64 weights: the weight token of a printed command, `parseLineW`, `parseW` -/
+
+theorem weightTok_r (s : Str) :
+    weightTok ('r' :: s) =
+      (if (head kAdd ('r' :: s)).isSome then
+        (match matchAdd ('r' :: s) with
+         | some m => m.weight
+         | none => [])
+      else if (head kDel ('r' :: s)).isSome then []
+      else if (head kWeight ('r' :: s)).isSome then
+        (match matchWeightSvc ('r' :: s) with
+         | some (_, _, w, _) => w
+         | none =>
+           match matchWeightSrc ('r' :: s) with
+           | some (_, w, _) => w
+           | none => [])
+      else []) := by
+  have h1 : isComment ('r' :: s) = false := by simp [isComment]
+  have h2 : isBlank ('r' :: s) = false := by simp [isBlank, isReSpace]
+  unfold weightTok
+  simp only [h1, h2, Bool.or_false, Bool.false_eq_true, if_false]
+  rfl
+
+/-- the weight token `Parse`'s grammar captures on a printed command is the weight text it was printed with -/
+theorem weightTok_printDef {pf : ParseFloat} {w : Str} {d : RouteDef} (h : DefOK pf w d) :
+    weightTok (printDef w d) = w := by
+  unfold DefOK at h
+  cases hc : d.cmd with
+  | other s => rw [hc] at h; exact h.elim
+  | add =>
+    rw [hc] at h
+    obtain ⟨hv, hs, hd, hw, ht, ho⟩ := h
+    have hp : printDef w d = "route add ".toList ++ (d.service ++ ' ' :: (d.src ++ ' ' :: (d.dst ++
+        (weightPart w ++ (tagsPart d.tags ++ optsPart d.opts))))) := by
+      unfold printDef; rw [hc]
+    obtain ⟨s, hs'⟩ : ∃ s, printDef w d = 'r' :: s := ⟨_, by rw [hp]; rfl⟩
+    rw [hs', weightTok_r, ← hs', hp, head_add]
+    simp only [Option.isSome_some, if_true]
+    rw [matchAdd_print hv hs hd hw ht ho]
+  | del =>
+    rw [hc] at h
+    obtain ⟨hw0, _, _, _, _⟩ := h
+    have hr : ∃ s, printDef w d = "route del".toList ++ s := by
+      unfold printDef; rw [hc]; dsimp only
+      by_cases hte : d.tags.isEmpty = true
+      · rw [if_pos hte]
+        exact ⟨' ' :: (d.service ++ (if d.src.isEmpty then [] else ' ' :: (d.src ++ (if d.dst.isEmpty then [] else ' ' :: d.dst)))), rfl⟩
+      · rw [if_neg hte]
+        by_cases hse : d.service.isEmpty = true
+        · rw [if_pos hse]; exact ⟨tagsPart d.tags, rfl⟩
+        · rw [if_neg hse]; exact ⟨' ' :: (d.service ++ tagsPart d.tags), rfl⟩
+    obtain ⟨s0, hp⟩ := hr
+    obtain ⟨s, hs'⟩ : ∃ s, printDef w d = 'r' :: s := ⟨_, by rw [hp]; rfl⟩
+    rw [hs', weightTok_r, ← hs', hp, head_del_add, head_del, hw0]
+    simp
+  | weight =>
+    rw [hc] at h
+    obtain ⟨hwne, hw1, hw, _, _, ht, hs, hrest⟩ := h
+    by_cases hse : d.service.isEmpty = true
+    · rw [if_pos hse] at hrest
+      have hp : printDef w d = "route weight".toList ++ ' ' :: (d.src ++ (" weight ".toList ++ (w ++ tagsPart d.tags))) := by
+        unfold printDef; rw [hc]; simp only [hse, if_true]; rfl
+      obtain ⟨s, hs'⟩ : ∃ s, printDef w d = 'r' :: s := ⟨_, by rw [hp]; rfl⟩
+      rw [hs', weightTok_r, ← hs', hp, head_weight_add, head_weight_del, head_weight]
+      simp only [Option.isSome_none, Option.isSome_some, Bool.false_eq_true, if_false, if_true]
+      rw [matchWeightSvc_none hs hwne hw hw1, matchWeightSrc_print hs hwne hw hrest ht]
+    · rw [if_neg hse] at hrest
+      have hse' : d.service.isEmpty = false := by simpa using hse
+      have hp : printDef w d = "route weight".toList ++ ' ' :: (d.service ++ ' ' :: (d.src ++ (" weight ".toList ++ (w ++ tagsPart d.tags)))) := by
+        unfold printDef; rw [hc]; simp only [hse', Bool.false_eq_true, if_false]; rfl
+      obtain ⟨s, hs'⟩ : ∃ s, printDef w d = 'r' :: s := ⟨_, by rw [hp]; rfl⟩
+      rw [hs', weightTok_r, ← hs', hp, head_weight_add, head_weight_del, head_weight]
+      simp only [Option.isSome_none, Option.isSome_some, Bool.false_eq_true, if_false, if_true]
+      rw [matchWeightSvc_print hrest hs hwne hw ht]
+
+/-- the command `Parse` delivers for a printed command when weights are float64: `DefOK` is asked of the reader that
+maps NaN/±Inf to 0 (`finPf`, what Go's `parseWeight` leaves in the definition is irrelevant then), the flag says
+whether the weight text denotes a non-finite value -/
+theorem parseLineW_printDef {pf : ParseFloat} {w : Str} {d : RouteDef} (h : DefOK (finPf pf) w d) :
+    parseLineW pf (printDef w d) = .ok (some { d, bad := nonFiniteTok pf w }) := by
+  unfold parseLineW
+  rw [parseLine_printDef h]
+  have hl := (printDef_facts h).2.1
+  obtain ⟨s, hs⟩ := (printDef_facts h).1
+  have htrim : trimSpace (printDef w d) = printDef w d := by
+    rw [hs] at hl ⊢; exact trimSpace_eq (by decide) hl
+  simp only [htrim, weightTok_printDef h]
+
+theorem scanW_print (pf : ParseFloat) (cs : List (Str × RouteDef))
+    (h : ∀ x ∈ cs, DefOK (finPf pf) x.1 x.2 ∧ byteLen (printDef x.1 x.2) < maxToken) (i : Nat) :
+    scan true (fun raw => parseLineW pf (dropCR raw)) i (cs.map (fun x => printDef x.1 x.2)) =
+      .ok (cs.map (fun x => ({ d := x.2, bad := nonFiniteTok pf x.1 } : WDef))) := by
+  induction cs generalizing i with
+  | nil => rfl
+  | cons x l ih =>
+    have hx := h x (by simp)
+    simp only [List.map_cons, scan]
+    have hlt : decide (maxToken ≤ byteLen (printDef x.1 x.2)) = false := by
+      simpa using hx.2
+    simp only [hlt, Bool.and_false, Bool.false_eq_true, if_false]
+    rw [dropCR_lastOK (printDef_facts hx.1).2.1, parseLineW_printDef hx.1]
+    simp only [ih (fun y hy => h y (List.mem_cons_of_mem _ hy))]
+
+/-- `Parse`, total over float64 weights, reads the text of a command list back as that list with the non-finite
+weights flagged -/
+theorem parseW_scriptText (pf : ParseFloat) (cs : List (Str × RouteDef))
+    (h : ∀ x ∈ cs, DefOK (finPf pf) x.1 x.2 ∧ byteLen (printDef x.1 x.2) < maxToken) :
+    parseW pf (scriptText cs) = .ok (cs.map (fun x => ({ d := x.2, bad := nonFiniteTok pf x.1 } : WDef))) := by
+  unfold parseW scriptText
+  rw [rawLines_join]
+  · exact scanW_print pf cs h 1
+  · intro l hl
+    obtain ⟨x, hx, rfl⟩ := List.mem_map.1 hl
+    exact ⟨printDef_ne (h x hx).1, (printDef_facts (h x hx).1).2.2.1⟩
+
 /-! ### decidability (for the examples) -/
 
 instance (s : Str) : Decidable (Tok s) := by unfold Tok; exact inferInstance
@@ -840,6 +956,20 @@ def csT : List (Str × RouteDef) :=
 
 theorem csT_ok : ∀ x ∈ csT, DefOK pfEx x.1 x.2 ∧ byteLen (printDef x.1 x.2) < maxToken := by
   have : csT.all (fun x => decide (DefOK pfEx x.1 x.2 ∧ byteLen (printDef x.1 x.2) < maxToken)) = true := by decide +kernel
+  intro x hx
+  exact of_decide_eq_true (List.all_eq_true.1 this x hx)
+
+/-- a reader that knows `nan` and `0.5`, and a list with a non-finite weight text: an add, a `weight … nan` on it, a del -/
+def pfN : ParseFloat := fun s =>
+  if s == "nan".toList then some .nan else if s == "0.5".toList then some (.fin (1/2)) else none
+
+def csN : List (Str × RouteDef) :=
+  [("0.5".toList, { cmd := .add, service := "s".toList, src := "h/".toList, dst := "http://a:1/".toList, weight := 1/2 }),
+   ("nan".toList, { cmd := .weight, service := "s".toList, src := "h/".toList, weight := 0 }),
+   ([], { cmd := .del, service := "s".toList })]
+
+theorem csN_ok : ∀ x ∈ csN, DefOK (finPf pfN) x.1 x.2 ∧ byteLen (printDef x.1 x.2) < maxToken := by
+  have : csN.all (fun x => decide (DefOK (finPf pfN) x.1 x.2 ∧ byteLen (printDef x.1 x.2) < maxToken)) = true := by decide +kernel
   intro x hx
   exact of_decide_eq_true (List.all_eq_true.1 this x hx)
 
